@@ -30,8 +30,6 @@ Definition s_gap : str := [45].
 Definition s_plus : str := [43].
 Definition s_star : str := [42].
 Definition s_dot : str := [46].
-Definition c_cogid : str := [99; 111; 103; 105; 100].
-Definition c_alignment : str := [97; 108; 105; 103; 110; 109; 101; 110; 116].
 
 (* one cognate set as the object holds it (what msa2str reads) *)
 Record msa := mk_msa {
